@@ -19,9 +19,7 @@ func (r *readerat) ReadAt(p []byte, off int64) (n int, err error) {
 		r.off = off
 	}
 	c, err := r.rs.Read(p)
-	if err != nil {
-		return c, err
-	}
+	// Read may return data together with an error (io.EOF, typically): the offset moved all the same.
 	r.off += int64(c)
-	return c, nil
+	return c, err
 }
